@@ -107,6 +107,10 @@ class Engine:
         self.lazy_pkgs = set()            # packages whose __init__ is only run on demand
         self.range_cap = None
         self.active_exc = []
+        self.load_ranges = []             # serial ranges of objects created while modules were being loaded
+        self.load_depth = 0
+        self.journal = []                 # undo actions restoring load-time (module-level) state at the next path
+        self.journaled = set()
         self.known = []
         self.known_hits = []
         self.job_name = ""
@@ -297,6 +301,8 @@ class Engine:
 
     def structural(self, o):
         """About to mutate o's structure: must not be predicated unless o was born in this region."""
+        if self.load_ranges and self.persistent(o):
+            self.journal_obj(o)
         if self.g is True:
             return
         if getattr(o, "serial", 0) > self.region_serial:
@@ -449,10 +455,50 @@ class Engine:
         saved = self.frame, self.g
         self.frame = fr
         self.g = True
+        start = self.serial
+        self.load_depth += 1
         try:
             self.exec_block(tree.body)
         finally:
             self.frame, self.g = saved
+            self.load_depth -= 1
+            if self.load_depth == 0 and self.serial > start:
+                self.load_ranges.append((start, self.serial))
+
+    def persistent(self, o):
+        """was o created while a module was being loaded (i.e. is it module-level state)?"""
+        sr = getattr(o, "serial", 0)
+        if self.load_depth > 0 or not sr:
+            return False
+        for a, b in self.load_ranges:
+            if a < sr <= b:
+                return True
+        return False
+
+    def journal_obj(self, o):
+        """before the first mutation of module-level state on a path: remember how to restore it, so that every path
+        starts from the state a fresh process would have"""
+        if id(o) in self.journaled:
+            return
+        self.journaled.add(id(o))
+        if isinstance(o, (PList, Bytes)):
+            snap = list(o.items)
+            self.journal.append(lambda: o.items.__setitem__(slice(None), snap))
+        elif isinstance(o, PDict):
+            snap = dict(o.d)
+            self.journal.append(lambda: (o.d.clear(), o.d.update(snap)))
+        elif isinstance(o, Obj):
+            snap = dict(o.d)
+            self.journal.append(lambda: (o.d.clear(), o.d.update(snap)))
+        elif isinstance(o, Cls):
+            snap = dict(o.ns)
+            self.journal.append(lambda: (o.ns.clear(), o.ns.update(snap)))
+
+    def rollback_module_state(self):
+        for undo in reversed(self.journal):
+            undo()
+        self.journal = []
+        self.journaled = set()
 
     def load_source(self, name, src, path="<harness>"):
         m = Module(name, path, False)
@@ -464,10 +510,15 @@ class Engine:
         saved = self.frame, self.g
         self.frame = fr
         self.g = True
+        start = self.serial
+        self.load_depth += 1
         try:
             self.exec_block(tree.body)
         finally:
             self.frame, self.g = saved
+            self.load_depth -= 1
+            if self.load_depth == 0 and self.serial > start:
+                self.load_ranges.append((start, self.serial))
         return m
 
     # ------------------------------------------------------------------ statements
@@ -790,6 +841,14 @@ class Engine:
         if fr.globals_declared and name in fr.globals_declared:
             # module state mutated at run time: keep it exact by refusing to predicate it
             self.commit()
+            if self.load_depth == 0:
+                globs = fr.globs
+                had = name in globs
+                prev = globs.get(name)
+                key = ("glob", id(globs), name)
+                if key not in self.journaled:
+                    self.journaled.add(key)
+                    self.journal.append((lambda g=globs, n=name, h=had, p=prev: g.__setitem__(n, p) if h else g.pop(n, None)))
             fr.globs[name] = v
             return
         if fr.nonlocals_declared and name in fr.nonlocals_declared:
@@ -1691,6 +1750,8 @@ class Engine:
             if not o.mutable:
                 self.throw("TypeError", "object does not support item assignment")
             i = self.index_of(idx, len(o.items))
+            if self.load_ranges and self.persistent(o):
+                self.journal_obj(o)
             self.check_byte(v)
             if isinstance(v, EnumVal):
                 v = v.v
@@ -1700,6 +1761,8 @@ class Engine:
             return
         if isinstance(o, PList):
             i = self.index_of(idx, len(o.items))
+            if self.load_ranges and self.persistent(o):
+                self.journal_obj(o)
             o.items[i] = self.merged(v, o.items[i])
             return
         if isinstance(o, (tuple, str, Str)):
@@ -1989,12 +2052,16 @@ class Engine:
                 self.call(sa, [o, name, v], {})
                 return
             old = o.d.get(name, NOTSET)
+            if self.load_ranges and self.persistent(o):
+                self.journal_obj(o)
             if old is NOTSET and self.g is not True and o.serial <= self.region_serial:
                 self.commit()
             o.d[name] = self.merged(v, old)
             return
         if isinstance(o, Cls):
-            self.structural(o)
+            if self.load_depth == 0:
+                self.journal_obj(o)
+            self.commit()
             o.ns[name] = v
             return
         if isinstance(o, Module):
